@@ -120,10 +120,18 @@ def dataset_checks(ctx, tr, zstep, w, params_list, simulate=True):
             wit = None
             # ---- the property's clauses on the files themselves
             for kind in ("rise", "curves"):
-                pst = parse_pst(files[kind, "pst"].split("\n"))
-                sec = pst["sections"]
-                names = [ln.split()[0] for ln in sec["parameter data"]]
-                obs = [ln.split() for ln in sec["observation data"]]
+                try:
+                    pst = parse_pst(files[kind, "pst"].split("\n"))
+                    sec = pst["sections"]
+                    names = [ln.split()[0] for ln in sec["parameter data"]]
+                    obs = [ln.split() for ln in sec["observation data"]]
+                    if any(len(o) != 4 for o in obs):
+                        raise ValueError("an observation line does not hold name, value, weight, group: %r" % next(o for o in obs if len(o) != 4))
+                    [float(o[1]) for o in obs]
+                    sec["parameter groups"], sec["observation groups"]
+                except (KeyError, IndexError, ValueError) as e:
+                    wit = {"why": "the control file cannot be read as a PEST control file", "file": kind + " pst", "error": repr(e)[:200]}
+                    break
                 ph = [x.strip() for ln in files[kind, "tpl"].split("\n")[1:] for x in re.findall(r"@([^@]*)@", ln)]
                 ins = re.findall(r"\[(\w+)\]3:24", files[kind, "ins"])
                 want_vals = rise_vals if kind == "rise" else rise_vals + rec_vals
@@ -150,6 +158,8 @@ def dataset_checks(ctx, tr, zstep, w, params_list, simulate=True):
                 r4, tab_rec = sim.simulate_cli(ctx, "recession", w["db"], params, False)
                 if any(r[0] != "ok" for r in (r1, r2, r3, r4)):
                     ctx.count("simulate_failed")
+                    ctx.corr_break(ob_ins, {"input": inp, "impl": [list(r) for r in (r1, r2, r3, r4)],
+                                            "no_longer_checks": "a simulate command fails on a parameter set and dataset the pestfiles accepted"})
                 elif any(b for _x, b in (sim.parse_vector(out_rise), sim.parse_vector(out_rec), sim.parse_table(tab_rise),
                                          sim.parse_table(tab_rec))):
                     bad = [b for _x, b in (sim.parse_vector(out_rise), sim.parse_vector(out_rec), sim.parse_table(tab_rise),
@@ -180,12 +190,14 @@ def dataset_checks(ctx, tr, zstep, w, params_list, simulate=True):
                                 back = None
                             if back != v:
                                 printed = out_lines_value(out_lines, k, len(rise_vals))
-                                ctx.violation("impl-violation", "extractLossless", {
+                                cut = printed[:22].strip() == str(g[1]).strip()
+                                rec_ = ctx.violation("impl-violation", "extractLossless", {
                                     "input": dict(inp, position=k), "impl": {"printed": printed, "extracted": g[1]},
                                     "oracle": {"name": "extractLossless", "result": False,
-                                               "witness": {"printed_longer_than_22_characters": len(printed) > 22,
+                                               "witness": {"printed_longer_than_22_characters": len(printed) > 22 and cut,
                                                            "printed": printed, "extracted": g[1]}}})
-                                break
+                                if rec_ is not None:
+                                    break          # (a listed known finding returns None: keep looking at the other values)
                     ctx.obligation(ob_ins, ok_ins)
                     if not ok_ins:
                         ctx.corr_break(ob_ins, {"input": inp, "model": got[:5]})
@@ -194,8 +206,13 @@ def dataset_checks(ctx, tr, zstep, w, params_list, simulate=True):
                 for kind in ("rise", "curves"):
                     text = "\n".join(files[kind, "tpl"].split("\n")[1:])
                     vals = placeholder_values(params)
-                    filled = re.sub(r"@([^@]*)@", lambda mo: repr(vals[mo.group(1).strip().lower()]), text)
-                    back = yaml.safe_load(filled)
+                    try:
+                        filled = re.sub(r"@([^@]*)@", lambda mo: repr(vals[mo.group(1).strip().lower()]), text)
+                        back = yaml.safe_load(filled)
+                    except (KeyError, yaml.YAMLError) as e:
+                        wit = {"why": "the template cannot be filled with the original values / read back", "file": kind + " tpl",
+                               "error": repr(e)[:200]}
+                        break
                     if back != params:
                         wit = {"why": "template filled with the original values is not equivalent to the original parameter file",
                                "file": kind + " tpl", "filled": back}
@@ -221,6 +238,7 @@ def run(ctx):
     warnings.simplefilter("ignore")
     rng = ctx.rng
     n = 5 if ctx.tier == "quick" else 40
+    n_done = [0]
     for d_i in range(n):
         tr = P.gen_truth(rng, noise=rng.choice([0.0, 0.4]), n_events=rng.randint(3, 7))
         zstep = rng.choice([1.0, 2.0, 2.5])
@@ -228,6 +246,7 @@ def run(ctx):
         if w["status"].get("rise", ("x",))[0] != "ok" or w["status"].get("recession", ("x",))[0] != "ok":
             P.cleanup(w)
             continue
+        n_done[0] += 1
         cli.run(["set-curvature", w["db"], "1.5"])
         rec_levels = [r[0] for r in w["tables"]["average_recession_time"]] or tr.level
         dataset_checks(ctx, tr, zstep, w, (
@@ -236,6 +255,10 @@ def run(ctx):
             sim.spline_params(rng, min(rec_levels), max(rec_levels) + 1.0, n_sy=rng.randint(6, 9), oscillating=True),
             sim.peatclsm_params(rng, max(tr.level))))
         P.cleanup(w)
+    if n_done[0] == 0:
+        ctx.corr_break("six generated PEST files = model (Model/Pest.lean) line by line",
+                       {"input": None, "no_longer_checks": "no planted dataset got both master curves (load / classify / set-zeta-grid / "
+                                                           "rise / recession fail on every one)"})
     for _ in range(1 if ctx.tier == "quick" else 4):
         big_dataset(ctx)
     extract_stream(ctx, 2000 if ctx.tier == "quick" else 50000)
